@@ -36,7 +36,7 @@ def Decoder.decode_literal (literal : PLit) : M Jelly.DecState (String × Option
   if (optStrTruthy literal.langtag) then
     language := (some (← liftE (optGet literal.langtag)))
   else
-    if truthy ((← liftE (optGet literal.datatype))) then
+    if (literal.datatype).isSome then
       datatype := (← zoom (·.datatypes) (fun s v => { s with datatypes := v }) (LookupDecoder.decode_datatype_term_index (← liftE (optGet literal.datatype))))
   return (literal.lex, language, datatype)
 
